@@ -373,4 +373,36 @@ PROPS = {
         technique="Coq proof (decision iff-theorem, refusal-code theorem) + end-to-end enumeration of routes x credentials with no-effect oracle",
         assumptions=["the request validator is main.standardValidator (not the database-backed one)"],
     ),
+    "C13": dict(
+        coq="Properties/C13.v",
+        suites=[dict(name="wire", pkg="./payload/", test="TestVerifWire", min_lines=800, timeout_quick=600,
+                     env_quick={"VERIF_N": 250}, env_thorough={"VERIF_N": 4000}),
+                dict(name="wirehttp", pkg="./http/", test="TestVerifWireHTTP", min_lines=200, timeout_quick=600,
+                     env_quick={"VERIF_N": 120}, env_thorough={"VERIF_N": 2500})],
+        rule=("wire: the REAL Bin.Add / EncodeHeader / Encoder.Read and NewDecoder / Decoder.Next / PartDecoder.Read in memory: seeded payloads of 1..5 (1 in 12: "
+              "6..35) parts; names, rename targets and predecessors of 1..4 segments from a 44-symbol alphabet (ASCII, space, 2/3/4-byte UTF-8, quote, backslash, "
+              "<, >, &, control characters incl. \\b \\f, DEL, U+2028/9, U+FFFF, literal '\\u0041'), in the '/' and the '\\' convention and without a separator "
+              "header; times incl. negative seconds, year 9999, nanoseconds 0 / 1 / 999999999; whole files and slices at the start, middle and end, offsets "
+              "beyond 2^33; part lengths 1..40, 200..4200, 30000..80000; encoder / stream / consumer buffers 1 B..100 kB independently; every payload also "
+              "with the wire cut at 6..8 points (inside the header, at the header/body boundary, inside and between parts, one byte short) and, 1 in 4, with "
+              "an announced header length that is too small / too large; header bytes, encoder output and every decoded part are compared with the model. "
+              "wirehttp: the REAL Client.Transmit (gzip levels -1, 0, 1..9) against the REAL Server.handleValidate + routeData + payload.NewDecoder over a "
+              "loopback TCP connection, the gate keeper recording what routeData hands over; each payload also 3 times as a raw request cut short after k "
+              "bytes of the (compressed) body with separator header '/' or '\\'; uncompressed requests are compared with the model exactly, compressed and "
+              "cut ones by oracle (never 200 unless complete; every part only ever holds a prefix of its own bytes); non-trivial = at least two parts, a cut "
+              "or compression; distinct = distinct input lines"),
+        level_text=("Proof: the header (Go's JSON string escaping at byte level, decimal integers, the sec+nsec time format) decodes to exactly the descriptors "
+                    "encoded, for all byte strings and all integers within +-10^19; the operational reader (PartDecoder.Read under any chunking and any "
+                    "consumer buffer) cuts the stream exactly at the announced lengths; so the whole payload round-trips for any number and length of parts and "
+                    "both separator conventions; every truncation inside the header is refused and every truncation inside the body reports the complete "
+                    "parts unchanged and flags the one short part, which holds a strict prefix of its own bytes. Tied to the code in memory (header bytes "
+                    "compared byte for byte) and over real HTTP requests."),
+        level_note=("Trusted: Coq kernel (no axioms), extraction, harness. Library code, not modelled: compress/gzip, net/http, encoding/json beyond the sender's own "
+                    "output (key order / case-insensitive keys / white space in foreign headers), UTF-8 validation (names that are not valid UTF-8 are "
+                    "replaced by U+FFFD by encoding/json: outside the property's quantifier, see DESIGN). filepath.Join / Clean are modelled lexically "
+                    "(Model/Auth.v clean_rel / clean_abs). The rename target is a template result of the sender's configuration and is deliberately not "
+                    "separator-translated by the code; the model follows the code."),
+        technique="Coq proof (codec round-trip by induction, reader refinement to a cut-at-lengths spec, truncation theorems) + byte-exact differential runs in memory and over loopback HTTP",
+        assumptions=["names are valid UTF-8", "integers within +-10^19 (covers int64)", "the consumer reads each part to its end (io.Copy in Stage.Receive) before asking for the next"],
+    ),
 }
